@@ -42,6 +42,9 @@ def showErr : Err → String
   | .internal => "ERR INTERNAL"
   | .fuel => "ERR FUEL"
 
+def sers (l : List Expr) : String := ",".intercalate (l.map fun e => encStr (ser e))
+def viewLine (c k d t : List Expr) : String := s!"C[{sers c}] K[{sers k}] D[{sers d}] T[{sers t}]"
+
 def handle (line : String) : String :=
   match line.splitOn " " with
   | ["cat", w] =>
@@ -62,6 +65,30 @@ def handle (line : String) : String :=
       | .ok es => s!"TREE [{showExprs es}] SER {encStr (serL es)}"
       | .error e => showErr e
     | _, _ => "bad-arg"
+  | ["views", tol, skips, w] =>
+    match decStr w, (if skips == "_" then some [] else (skips.splitOn ",").mapM decStr) with
+    | some s, some sk =>
+      match parse (tol == "1") sk s with
+      | .ok es =>
+        let root := viewLine (dropBlank es) ((dropBlank es).filter (fun x => !x.isText)) (descRoot es) (textRoot es)
+        let nodes := (descRoot es).filter (fun x => !x.isText)
+        "VIEWS " ++ " # ".intercalate (root :: nodes.map fun n =>
+          viewLine (contentsOf n) (childrenOf n) (descOf n) (textOf n))
+      | .error e => showErr e
+    | _, _ => "bad-arg"
+  | ["find", tol, skips, w, q] =>
+    match decStr w, (if skips == "_" then some [] else (skips.splitOn ",").mapM decStr),
+          (q.splitOn ",").mapM decStr with
+    | some s, some sk, some qs =>
+      match parse (tol == "1") sk s with
+      | .ok es =>
+        let query := match qs with
+          | [one] => if q.endsWith "," then Query.names [one] else Query.name one
+          | l => Query.names l
+        let nodes := (descRoot es).filter (fun x => !x.isText)
+        "FIND " ++ " # ".intercalate ((sers (findAllRoot query es)) :: nodes.map fun n => sers (findAll query n))
+      | .error e => showErr e
+    | _, _, _ => "bad-arg"
   | _ => "bad-op"
 
 partial def loop (h : IO.FS.Stream) (out : IO.FS.Stream) : IO Unit := do
